@@ -1223,6 +1223,8 @@ pub fn run(tier: Tier) -> i32 {
     let mut tally = ctx.par(32, |s| {
         let mut t = Tally::new();
         let log_on = s % 4 == 0;
+        // every other shard's providers behave like tower's own services: a call without readiness is a panic, not an error
+        crate::exec::set_provider_contract_panics(s % 2 == 1);
         for i in 0..per {
             if log_on {
                 crate::exec::capture_logs(true);
@@ -1256,6 +1258,7 @@ pub fn run(tier: Tier) -> i32 {
         if s == 1 {
             direct_api(&mut t, seed, tier.n(3000, 1_000_000));
         }
+        crate::exec::set_provider_contract_panics(false);
         if s == 4 {
             degenerate_components(&mut t, seed, tier.n(6000, 300_000));
         }
@@ -1334,7 +1337,7 @@ pub fn run(tier: Tier) -> i32 {
     }
     let rep = Report {
         level: "exploration",
-        rule: "Panic monitor at the harness boundary (catch_unwind around every poll of the validation future and every direct API call, panic hook recording message and location, poll budget for hangs) over W-hostile: dictionary-guided and random URIs (origin, absolute, authority and asterisk forms), header multisets with many Authorization / date / token / content-type duplicates, TAB and 0x80–0xFF bytes, bodies incl. invalid UTF-8 and ISO-2022 / UTF-16 escape fragments, all option and requirement combinations (empty, non-ASCII, pseudo-header names), extreme server clocks (chrono MIN/MAX, years 0/1/9999), provider scripts with delays and errors; every WHATWG charset label × 7 body shapes with folding on; the mixed corpus of the other checks; direct calls of the canonicalisers and of SigV4Authenticator's builder / prevalidate / validate_signature with arbitrary credentials, timestamps and Duration::{MIN,MAX}; builders with missing fields, error conversions (50-deep nested boxes), Debug/Display of everything, all ten key-derivation routes for 13 dates across chrono's whole range (years −262143…262142) × 4 region/service shapes; requests whose UTC year is −1 or 10000 (four-digit year in a local offset, server clock across the year boundary, scope date rendered as the library renders such years) driven as far as the key provider, which derives with the library's own chain. Heavy shapes (form bodies straddling the 65 534-byte URI limit, 1 MiB bodies, 20 000 parameters, limit-length and 32 000-segment URIs) run in a child process whose exit status is the oracle. Thorough adds ASan, valgrind memcheck and Miri runs of the same generators. Distinct = distinct executed cases by hash.".into(),
+        rule: "Panic monitor at the harness boundary (catch_unwind around every poll of the validation future and every direct API call, panic hook recording message and location, poll budget for hangs) over W-hostile: dictionary-guided and random URIs (origin, absolute, authority and asterisk forms), header multisets with many Authorization / date / token / content-type duplicates, TAB and 0x80–0xFF bytes, bodies incl. invalid UTF-8 and ISO-2022 / UTF-16 escape fragments, all option and requirement combinations (empty, non-ASCII, pseudo-header names), extreme server clocks (chrono MIN/MAX, years 0/1/9999), provider scripts with delays and errors, in every other shard a provider that — like tower's own Buffer / ConcurrencyLimit / FutureService — panics when called without readiness; validly signed requests with exactly one degenerate authentication component (access key, token, signature, a signed-list entry, key material, server scope, secret, timestamp: empty, blank, a separator, an escape fragment, non-ASCII, 70 000 characters) that travel as far as the provider; every WHATWG charset label × 7 body shapes with folding on; the mixed corpus of the other checks; direct calls of the canonicalisers and of SigV4Authenticator's builder / prevalidate / validate_signature with arbitrary credentials, timestamps and Duration::{MIN,MAX}; builders with missing fields, error conversions (50-deep nested boxes), Debug/Display of everything, all ten key-derivation routes for 13 dates across chrono's whole range (years −262143…262142) × 4 region/service shapes; requests whose UTC year is −1 or 10000 (four-digit year in a local offset, server clock across the year boundary, scope date rendered as the library renders such years) driven as far as the key provider, which derives with the library's own chain. Heavy shapes (form bodies straddling the 65 534-byte URI limit, 1 MiB bodies, 20 000 parameters, limit-length and 32 000-segment URIs) run in a child process whose exit status is the oracle. Thorough adds ASan, valgrind memcheck and Miri runs of the same generators. Distinct = distinct executed cases by hash.".into(),
         assumptions: vec!["unescape_uri_encoding and get_string_to_sign are documented to require validated input and are excluded".into(), "only what the http crate's constructors admit reaches the library".into()],
         extra: J::obj().set("calibrated_vectors", J::i(pre.unwrap_or(0) as i64)).set("sanitizers", san),
     };
